@@ -381,17 +381,31 @@ func main() {
 	knownHit := map[string]int{}
 	knownSeed := map[string]int64{}
 
+	var unconfirmedDeaths []string
+	confirmedSig := map[string]int{} // crash signature (from the dying worker's own output) -> confirmations so far
+	triedSig := map[string]int{}
 	for _, c := range crashes {
 		parts := strings.SplitN(c, "|", 3)
+		// many workers dying the same death need not all be run again: three confirmations, or six attempts, per signature
+		own := crashSig([]byte(parts[2]))
+		if confirmedSig[own] >= 3 || triedSig[own] >= 6 {
+			continue
+		}
+		triedSig[own]++
 		idx, _ := strconv.ParseInt(parts[0], 10, 64)
 		sd, _ := strconv.ParseInt(parts[1], 10, 64)
 		e := []string{"VERIF_PROP=" + prop, "VERIF_MODE=sweep", fmt.Sprintf("VERIF_BASE=%d", seed), fmt.Sprintf("VERIF_SEED0=%d", idx), "VERIF_TIER=" + tierName,
 			"VERIF_STRIDE=1", "VERIF_N=1", "VERIF_DET_EVERY=0", "VERIF_OUT=" + filepath.Join(workDir, "crash.jsonl")}
 		out, err := runWorker(bin, e, 5*time.Minute)
 		if err == nil {
-			die2("a worker died but its last run (index %d, seed %d) does not crash when run alone:\n%s", idx, sd, parts[2])
+			// it does not happen again when the run is the only one of its process: state that the library carried
+			// over from earlier runs of that worker, or trouble of ours. Decided at the end: beside a confirmed
+			// violation it is a note, alone it is infrastructure trouble (exit 2).
+			unconfirmedDeaths = append(unconfirmedDeaths, fmt.Sprintf("a worker died but its last run (index %d, seed %d) does not crash when run alone:\n%s", idx, sd, parts[2]))
+			continue
 		}
 		sig := crashSig(out)
+		confirmedSig[own]++
 		if f := matchFinding(known, prop, prop+":crash:"+sig, string(out)); f != nil {
 			knownHit[f.ID]++
 			knownSeed[f.ID] = sd
@@ -478,6 +492,12 @@ func main() {
 		exit = 1
 	}
 
+	if len(unconfirmedDeaths) > 0 {
+		if exit == 0 {
+			die2("%s", unconfirmedDeaths[0])
+		}
+		fmt.Printf("NOTE: %d worker(s) died at a run that does not crash when it is the only run of its process (the library carries state from run to run); first:\n%s\n", len(unconfirmedDeaths), indent(trunc(unconfirmedDeaths[0], 1500)))
+	}
 	if len(nondet) > 0 && exit == 0 {
 		// nothing can be concluded from a clean sweep that does not replay
 		if len(nondet) > 5 {
